@@ -13,7 +13,7 @@ VARIABLE i
 Init == i \in 1..Len(Lines)
 Next == UNCHANGED i
 
-SameKind(a, b) == a = b \/ (a = "Overflow" /\ b = "Incomplete")
+SameKind(a, b) == a = b \/ (a = "Overflow" /\ b \in {"Incomplete", "NonImplemented"})
 
 \* flags of one observed parser call against the reference
 CallFlags(e, o) ==
